@@ -387,6 +387,8 @@ class SymEx:
         self.temps = 0
         self.inlined = set()
         self.trace_writes = None      # optional list of (Loc, line)
+        self.allow_recip = False      # division by a non-constant polynomial p -> factor symbol RECIPn with recips[RECIPn] = p
+        self.recips = {}
 
     # --- memory ---------------------------------------------------------------------------------
     def read(self, loc):
@@ -770,6 +772,13 @@ class SymEx:
                     raise NotClosedForm("integer division by zero")
                 q = abs(ai) // abs(bi)
                 return Poly.const(q if (ai >= 0) == (bi >= 0) else -q)
+            if self.allow_recip and b.const_value() is None:
+                for nm, pb in self.recips.items():
+                    if pb == b:
+                        return a * Poly.sym(nm)
+                nm = "RECIP%d" % len(self.recips)
+                self.recips[nm] = b
+                return a * Poly.sym(nm)
             return a / b
         if op in ("<", ">", "<=", ">=", "==", "!="):
             d = (a - b).const_value()
@@ -804,6 +813,8 @@ class SymEx:
                 rn, rd = math.isqrt(c.numerator), math.isqrt(c.denominator)
                 if rn * rn == c.numerator and rd * rd == c.denominator:
                     return Poly.const(Fraction(rn, rd))
+            if self.allow_recip and c is not None and c >= 0:
+                return Poly.sym("sqrt(%s)" % c)     # opaque algebraic constant
             raise NotClosedForm("square root of %s is not rational" % a)
         if callee in ("FEAT::Math::abs", "std::abs", "std::fabs") and len(n.get("a", [])) == 1:
             a = self.num(self.eval(n["a"][0], env, fn))
@@ -1034,18 +1045,26 @@ class AbsSymEx(SymEx):
         if self.links.get(dst.key()) is None and (src.root in self.havoc or any(isinstance(e, str) and e.startswith("#") for e in src.path)) and not is_input_root(src.root):
             self.hlinks[dst.key()] = (src, self.ver.get(src.root))
 
+    def _read_hlink(self, loc):
+        p = loc.path
+        for n in range(len(p), -1, -1):
+            h = self.hlinks.get((loc.root, p[:n]))
+            if h is not None:
+                src = Loc(h[0].root, h[0].path + p[n:])
+                return Poly.sym(self._havoc_name(src, h[1]))
+        return None
+
     def read(self, loc):
+        if self.hlinks and loc.key() not in self.store and is_input_root(loc.root):
+            r = self._read_hlink(loc)
+            if r is not None:
+                return r
         try:
             return super().read(loc)
         except NotClosedForm:
-            p = loc.path
-            for n in range(len(p), -1, -1):
-                h = self.hlinks.get((loc.root, p[:n]))
-                if h is not None:
-                    src = Loc(h[0].root, h[0].path + p[n:])
-                    if src.key() in self.store:
-                        return self.store[src.key()]
-                    return Poly.sym(self._havoc_name(src, h[1]))
+            r = self._read_hlink(loc)
+            if r is not None:
+                return r
             if loc.root in self.havoc:
                 return Poly.sym(loc_name(loc) + ("@%d" % self.ver[loc.root] if self.versioned and loc.root in self.ver else ""))
             if any(isinstance(e, str) and e.startswith("#") for e in loc.path):
@@ -1168,7 +1187,10 @@ class AbsSymEx(SymEx):
                 if a.root in self.ver:
                     ev["in_versions"][loc_name(Loc(a.root))] = self.ver[a.root]
                 syms = set()
-                for rest, v in self.sub_entries(a):
+                ents = list(self.sub_entries(a))
+                if len(ents) <= 16:
+                    ev.setdefault("snap", {})[loc_name(a)] = {rest: v for rest, v in ents}
+                for rest, v in ents:
                     if isinstance(v, Poly):
                         syms |= v.symbols()
                 for m in range(len(a.path), -1, -1):
